@@ -491,8 +491,11 @@ def e2e_configs(tier):
             c["band_chunk"] = rng.choice([1, -1])
         elif ax == "YXS" and rng.random() < 0.4:
             c["band_chunk"] = rng.choice([1, 1, 2])
-        if rng.random() < 0.06:
+        if rng.random() < 0.06 and not str(c["compression"]).startswith("lerc"):    # LERC refuses bool blocks (loudly)
             c["dtype"] = "bool"
+            if c.get("nodata") is not None and not (c["nodata"] == 0 or c["nodata"] == 1):
+                c["nodata"] = 1                     # a nodata value the 8-bit file can hold
+            c.pop("predictor", None)
         c["scheduler"] = rng.choice(["sync", f"shuffle:{i}", f"shuffle:{i + 100}", "threads:2", "threads:4"])
         if rng.random() < 0.5 and level0_tiles(c) <= 20:
             # small parts / spilling only where every bag partition holds one tile and spill_sz >= min_write_sz:
